@@ -127,6 +127,29 @@ impl BoundSet {
         true
     }
 
+    /// The lowest version that satisfies this interval, if there is one.
+    fn min_version(&self) -> Option<Version> {
+        let candidates = match self.lower.as_ref() {
+            Bound::Lower(Predicate::Including(v)) => vec![v.clone()],
+            Bound::Lower(Predicate::Excluding(v)) => {
+                // what follows `v` in precedence: `v.0` for a prerelease, else the
+                // first prerelease and then the release of the next patch
+                let mut next = v.clone();
+                if v.is_prerelease() {
+                    next.pre_release.push(Identifier::Numeric(0));
+                    vec![next]
+                } else {
+                    next.patch += 1;
+                    let release = next.clone();
+                    next.pre_release.push(Identifier::Numeric(0));
+                    vec![next, release]
+                }
+            }
+            _ => vec![Version::from((0, 0, 0, 0)), Version::from((0, 0, 0))],
+        };
+        candidates.into_iter().find(|v| self.satisfies(v))
+    }
+
     fn allows_all(&self, other: &BoundSet) -> bool {
         self.lower <= other.lower && other.upper <= self.upper
     }
@@ -508,38 +531,8 @@ impl Range {
     Return the lowest [Version] that can possibly match the given range.
     */
     pub fn min_version(&self) -> Option<Version> {
-        if let Some(min_bound) = self.0.iter().map(|range| &range.lower).min() {
-            let min_bound = min_bound.as_ref();
-            match min_bound {
-                Bound::Lower(pred) => match pred {
-                    Predicate::Including(v) => Some(v.clone()),
-                    Predicate::Excluding(v) => {
-                        let mut v = v.clone();
-                        if v.is_prerelease() {
-                            v.pre_release.push(Identifier::Numeric(0))
-                        } else {
-                            v.patch += 1;
-                        }
-                        Some(v)
-                    }
-                    Predicate::Unbounded => {
-                        let mut zero = Version::from((0, 0, 0));
-                        if self.satisfies(&zero) {
-                            return Some(zero);
-                        }
-
-                        zero.pre_release.push(Identifier::Numeric(0));
-                        if self.satisfies(&zero) {
-                            return Some(zero);
-                        }
-                        None
-                    }
-                },
-                Bound::Upper(_) => None,
-            }
-        } else {
-            None
-        }
+        // the lowest version of every alternative, then the lowest of those
+        self.0.iter().filter_map(BoundSet::min_version).min()
     }
 }
 
